@@ -408,7 +408,7 @@ func runC10(c *Ctx, r *Report, tier string) {
 					}
 					for _, ref := range *al.Referrers() {
 						fa, ok := ref.(*ssa.FieldAddr)
-						if !ok || fieldObj(fa.X.Type(), fa.Field).Name() != "tag" {
+						if !ok || fieldVarName(fieldObj(fa.X.Type(), fa.Field)) != "tag" {
 							continue
 						}
 						for _, r2 := range *fa.Referrers() {
